@@ -13,9 +13,9 @@ from vf.lib import buf
 RULE = ("cases: (a) every composition n = n1+...+nk of every n <= 6 (bounded exhaustive) and sampled compositions (zero-sized increments included) of n = 0..64 BIP-340 signatures "
         "made by schnorrsig_sign32 over edge-biased keys (duplicates included); one-shot aggregate must have 32(n+1) bytes, equal pyref.halfagg.aggregate byte for byte, pass aggverify, "
         "every incremental schedule must reproduce the one-shot bytes of every prefix, every buffer shorter than 32(n+1) must give 0, larger / ragged buffers 1; "
-        "(b) aggregate strings for n = 0..20: honest, bit flips, r_i >= p, r_i off curve, r_i of another point, s >= n, s = 0, length +-1..31, +-32 (length for n+-1), key list shorter / longer, "
+        "(b) aggregate strings for n = 0..20: honest, bit flips, r_i >= p, r_i off curve, r_i of another point, s >= n, s = 0, s -> n - s (negation of the correct scalar), length +-1..31, +-32 (length for n+-1), key list shorter / longer, "
         "keys / messages swapped or altered, one input signature altered before aggregation; oracle: verdict of pyref.halfagg.verify (draft-spec VerifyAggregate); "
-        "(c) order-13 / order-199 builds: honest aggregates verify, incremental == one-shot, every re-encoding s + k*order is rejected (group-agnostic relations only). "
+        "(c) order-13 / order-199 builds: honest aggregates verify, incremental == one-shot, every re-encoding s + k*order and the negation order - s are rejected (group-agnostic relations only). "
         "non-trivial = n >= 2 with >= 2 non-empty increments, or a string that is not an unmodified honest aggregate")
 ASSUMPTIONS = ["pyref.halfagg implements the draft half-aggregation specification (validated against the draft's test vectors) on top of pyref.bip340 / pyref.ec",
                "x-only key objects handed to the API come from xonly_pubkey_parse / keypair_xonly_pub",
@@ -246,7 +246,7 @@ def sequence_case(draw):
 
 
 # ------------------------------------------------------------------ (b) aggregate strings
-MUTS = ["bitflip", "bitflip", "r_ge_p", "r_offcurve", "r_other", "s_ge_n", "s_ge_n", "s_zero", "s_plus1", "trunc", "ext", "len_minus32", "len_plus32", "len_plus32",
+MUTS = ["bitflip", "bitflip", "r_ge_p", "r_offcurve", "r_other", "s_ge_n", "s_ge_n", "s_zero", "s_plus1", "s_neg", "s_neg", "s_neg", "trunc", "ext", "len_minus32", "len_plus32", "len_plus32",
         "n_minus", "n_plus", "drop_last", "add_one", "swap_pks", "swap_msgs", "swap_pairs", "swap_all", "alter_msg", "replace_pk", "alter_sig_before", "empty",
         "swap_r", "noop_swap"]
 
@@ -318,12 +318,15 @@ def run_string(env, case):
             else:
                 v = find_x(old + 1 + b, k == "r_other")
             agg[32 * i:32 * i + 32] = ec.i2b(v)
-        elif k in ("s_ge_n", "s_zero", "s_plus1") and len(agg) >= 32:
+        elif k in ("s_ge_n", "s_zero", "s_plus1", "s_neg") and len(agg) >= 32:
             s = ec.b2i(bytes(agg[-32:]))
             if k == "s_ge_n":
                 v = [N, N + 1, M256, (s + N) if s + N <= M256 else N + (s % (M256 + 1 - N)), N + (a % 1000)][b % 5]
             elif k == "s_zero":
                 v = 0
+            elif k == "s_neg":
+                # the negation of the correct scalar: s'G = -(sum), same x-coordinate, algebraically the closest wrong value
+                v = (N - s) % N
             else:
                 v = (s + 1) % N
             agg[-32:] = ec.i2b(v)
@@ -389,6 +392,9 @@ def run_string(env, case):
     if not mutated:
         env.require(got == 1, "honest aggregate rejected")
         classes.append("honest")
+    if not altered and n >= 1 and [m["kind"] for m in muts] == ["s_neg"]:
+        # an otherwise honest aggregate of n >= 1 signatures whose s was replaced by n - s
+        classes.append("negated_s_of_honest")
     env.require(lib.illegal() == 0 and lib.errors() == 0, "callback fired in aggverify: " + lib.cbmsg())
     classes.append("accept" if got else "reject")
     if len(agg) % 32:
@@ -461,6 +467,11 @@ def run_small(env, case):
     env.require(r2 == 1 and a2 == agg, "incremental aggregation differs from one-shot aggregation (small group, cut=%d)" % cut, got=a2, expect=agg)
     s = ec.b2i(agg[-32:])
     env.require(s < order, "aggregate s >= group order emitted", s=s)
+    if s != 0:
+        # (order - s)G = -(sG): equals the right-hand side only if 2sG = 0, i.e. s = 0, in a group of odd prime order
+        got = lib_aggverify(env, pk_arr, mcat, n, agg[:-32] + ec.i2b(order - s))
+        env.require(got == 0, "aggverify accepted an honest aggregate whose s was replaced by its negation order - s", s=s, order=order, agg=agg)
+        classes.append("negated_s_rejected")
     for k in case["ks"]:
         s2 = s + k * order
         if s2 > M256:
@@ -486,8 +497,8 @@ TESTS = [
     Test("sequences_vsan", sequence_case, run_sequence, quick=60, thorough=1500, cfgs=VSANONLY, must_cover=["incremental>=2"]),
     Test("strings", string_case, run_string, quick=3000, thorough=120000, cfgs=PRODONLY,
          must_cover=["accept", "reject", "honest", "r>=p", "r_offcurve", "s>=n", "len_not_multiple_of_32", "len_for_other_n", "mut:len_plus32", "mut:swap_pks",
-                     "mut:swap_msgs", "mut:alter_sig_before", "mut:alter_msg", "mut:drop_last", "n=0"]),
+                     "mut:swap_msgs", "mut:alter_sig_before", "mut:alter_msg", "mut:drop_last", "n=0", "mut:s_neg", "negated_s_of_honest"]),
     Test("strings_vsan", string_case, run_string, quick=300, thorough=8000, cfgs=VSANONLY, must_cover=["accept", "reject"]),
     Test("small_group", small_case, run_small, quick=1500, thorough=40000, cfgs=SMALL,
-         must_cover=["honest_ok", "s_plus_k_order_rejected", "order=13", "order=199"]),
+         must_cover=["honest_ok", "s_plus_k_order_rejected", "negated_s_rejected", "order=13", "order=199"]),
 ]
